@@ -525,10 +525,25 @@ def _forwarding(rep, model):
         if ci is None:
             raise AnalysisError('anchor vanished: class %s' % cname)
         gi = ci.methods.get('__getitem__')
+        init = ci.methods['__init__']
+        # parameters whose processing in the constructor is not idempotent:
+        # something is added to / subtracted from them (a translation); a
+        # normalisation, by contrast, can be repeated
+        accumulated, inplace = _accumulations(init)
+        if inplace:
+            rep.violation(
+                'R4m', '%s.__init__' % cname,
+                '%s: the array is (an alias of) the caller\'s argument and '
+                'of the argument recorded for slicing; updating it in place '
+                'changes the caller\'s array, and a geometry built again '
+                'from the recorded argument (g[i:j]) applies the update '
+                'twice' % '; '.join(inplace), ci.rel, init.lineno)
+        else:
+            rep.holds('R4m', '%s.__init__' % cname, 'no in-place '
+                      'accumulation into an argument array')
         if gi is None:
             continue
         n += 1
-        init = ci.methods['__init__']
         params = [a.arg for a in init.args.args][3:]
         popped = set()
         for c in model.mro(ci):
@@ -541,6 +556,12 @@ def _forwarding(rep, model):
                             k.args[0], ast.Constant):
                     popped.add(k.args[0].value)
         need = [p for p in params] + sorted(popped)
+        recorded = {t.attr for c in model.mro(ci)
+                    for i2 in [c.methods.get('__init__')] if i2 is not None
+                    for st in ast.walk(i2) if isinstance(st, ast.Assign)
+                    for t in st.targets if isinstance(t, ast.Attribute)
+                    and isinstance(t.value, ast.Name) and t.value.id == 'self'
+                    and t.attr.endswith('_arg')}
         rets = return_exprs(gi)
         cons = '%s.__getitem__' % cname
         if len(rets) != 1 or not isinstance(rets[0].value, ast.Call) or \
@@ -563,6 +584,15 @@ def _forwarding(rep, model):
             ok = v in ('self.%s' % p, 'self._%s_arg' % p)
             if not ok:
                 probs.append('%s=%s' % (p, v))
+            elif v == 'self.%s' % p and ('_%s_arg' % p) in recorded and \
+                    p in accumulated:
+                # the constructor keeps the argument as given next to the
+                # processed value (transformed, translated, normalised):
+                # handing the processed value back processes it twice
+                probs.append('%s=%s although the constructor records the '
+                             'argument as given in self._%s_arg (the '
+                             'processed value is processed again)'
+                             % (p, v, p))
         if probs:
             rep.violation('R4', cons, 'the sliced geometry is built with %s:'
                           ' every constructor parameter except the sliced '
@@ -572,6 +602,82 @@ def _forwarding(rep, model):
         else:
             rep.holds('R4', cons, 'forwards %s' % need)
     rep.floor('R4', 'geometry classes with __getitem__', n, 4)
+
+
+def _accumulations(init):
+    """(names of parameters that receive `+=` / `-=` or `p = p + ...` in the
+    constructor, descriptions of in-place accumulations into arrays that may
+    alias a parameter).  Aliases: the parameter itself, `np.asarray(p)` /
+    `np.array(p, copy=False)`, and the first vector handed back by
+    `transform_system(p, ...)` ("this one goes straight in")."""
+    params = {a.arg for a in init.args.args[1:]}
+    alias = {p: p for p in params}          # name -> parameter it aliases
+    containers = {}                         # list name -> parameter of item 0
+    accumulated, inplace = set(), []
+
+    def src(v):
+        if isinstance(v, ast.Name):
+            return alias.get(v.id)
+        if isinstance(v, ast.Call):
+            f = ast.unparse(v.func)
+            if f in ('np.asarray', 'np.asanyarray') and v.args:
+                return src(v.args[0])
+            if f == 'np.array' and v.args and any(
+                    k.arg == 'copy' and isinstance(k.value, ast.Constant)
+                    and k.value.value is False for k in v.keywords):
+                return src(v.args[0])
+            if ast.unparse(v.func) == 'kwargs.pop' and v.args and \
+                    isinstance(v.args[0], ast.Constant) and isinstance(
+                        v.args[0].value, str):
+                return v.args[0].value      # a keyword argument of the caller
+            if isinstance(v.func, ast.Attribute) and v.func.attr == 'pop' \
+                    and isinstance(v.func.value, ast.Name) and v.args and \
+                    isinstance(v.args[0], ast.Constant) and \
+                    v.args[0].value == 0:
+                c = v.func.value.id
+                r = containers.get(c)
+                containers[c] = None        # later items are fresh
+                return r
+        return None
+    for st in init.body:
+        for node in ast.walk(st):
+            strong = node is st         # nested (conditional): may-alias
+            if isinstance(node, ast.Assign) and len(node.targets) == 1 and \
+                    isinstance(node.targets[0], ast.Name):
+                t, v = node.targets[0].id, node.value
+                if isinstance(v, ast.Call) and ast.unparse(v.func) in (
+                        'transform_system',) and v.args:
+                    containers[t] = src(v.args[0])
+                    continue
+                if isinstance(v, ast.Call) and ast.unparse(v.func) == \
+                        'list' and v.args and isinstance(
+                            v.args[0], ast.Name) and \
+                        v.args[0].id in containers:
+                    containers[t] = containers[v.args[0].id]
+                    continue
+                if isinstance(v, ast.BinOp) and isinstance(
+                        v.op, (ast.Add, ast.Sub)) and isinstance(
+                            v.left, ast.Name) and alias.get(v.left.id):
+                    accumulated.add(alias[v.left.id])
+                    alias[t] = None
+                    alias.pop(t, None)
+                    # the sum is a new array, but the name still stands for
+                    # the processed parameter
+                    continue
+                a = src(v)
+                if a is not None:
+                    alias[t] = a
+                elif strong:
+                    alias.pop(t, None)
+            elif isinstance(node, ast.AugAssign) and isinstance(
+                    node.target, ast.Name) and isinstance(
+                        node.op, (ast.Add, ast.Sub)):
+                a = alias.get(node.target.id)
+                if a is not None:
+                    accumulated.add(a)
+                    inplace.append('`%s` (line %d)' % (ast.unparse(node),
+                                                       node.lineno))
+    return accumulated, inplace
 
 
 # --------------------------------------------------------------------------
